@@ -250,6 +250,11 @@ def rand_mixture_spec(rng, kind=None):
             if not any(x > 0 and el in s.stoichiometry for x, s in zip(x0, sps)):
                 i = next(i for i, s in enumerate(sps) if el in s.stoichiometry and s.charge_number == 0)
                 x0[i] = 0.5
+    # the constraint composition may put weight on ions too (the charge constraint stays "net charge zero")
+    if rng.random() < 0.25:
+        ions = [i for i, s in enumerate(sps) if s.charge_number != 0]
+        if ions:
+            x0[rng.choice(ions)] = rng.uniform(0.01, 0.3)
     tot = sum(x0)
     x0 = [x / tot for x in x0]
     return sps, x0, kind
